@@ -1,4 +1,7 @@
-use super::types::{AuthError, AuthResult, MAX_SIGNATURE_LENGTH, MAX_USER_ID_LENGTH, UserCache};
+use super::types::{
+    AuthError, AuthResult, BYPASS_USER_ID, MAX_SIGNATURE_LENGTH, MAX_USER_ID_LENGTH, NO_AUTH_USER_ID,
+    UserCache,
+};
 use hmac::{Hmac, Mac};
 use sha2::Sha256;
 use std::sync::Arc;
@@ -23,6 +26,12 @@ pub async fn verify_signature(
 
     if user_id.len() > MAX_USER_ID_LENGTH {
         warn!(target: "sneldb::auth", user_id_len = user_id.len(), "User ID too long");
+        return Err(AuthError::AuthenticationFailed);
+    }
+
+    // Accounts created under a reserved id before ids were validated must not authenticate.
+    if user_id == BYPASS_USER_ID || user_id == NO_AUTH_USER_ID {
+        warn!(target: "sneldb::auth", "Reserved user id cannot authenticate");
         return Err(AuthError::AuthenticationFailed);
     }
 
